@@ -14,6 +14,12 @@ use serde_json::{json, Value};
 /// verbatim). `prefix_len`: when Some(n), x[..n] ends at a statement boundary right before a
 /// `pasfmt off` comment and the output must start with format(x[..n]) (minus its final terminator).
 pub fn c07(x: &str, prefix_len: Option<usize>, cfg: &Cfg, ctx: &mut Ctx) {
+    c07_eof(x, prefix_len, false, cfg, ctx)
+}
+
+/// `eof_clause`: the text is well formed and formatting is on at its end, so the output must end with
+/// exactly one line terminator
+pub fn c07_eof(x: &str, prefix_len: Option<usize>, eof_clause: bool, cfg: &Cfg, ctx: &mut Ctx) {
     let out = ctx.fmt(cfg, x);
     let tx = r::scan(x);
     let to = r::scan(&out);
@@ -74,7 +80,7 @@ pub fn c07(x: &str, prefix_len: Option<usize>, cfg: &Cfg, ctx: &mut Ctx) {
     }
     // ... and whitespace outside is canonical
     let before = ctx.stats.violation_count;
-    o::c08(x, &out, cfg, &o::C08Opts { eof_clause: false }, ctx);
+    o::c08(x, &out, cfg, &o::C08Opts { eof_clause }, ctx);
     if ctx.stats.violation_count > before {
         // re-label: found through the C07 check
         if let Some(v) = ctx.stats.violations.last_mut() {
